@@ -158,6 +158,13 @@ def cases(tier, seed):
     for shp in ([2, 3], [3, 1], [1, 4], [2, 3, 2]):
         add("vec.index", dict(shape=shp), "vec")
         add("vec.index", dict(shape=shp, entries="sym"), "vec")
+    # `sys` omitted with `dim` given (three and four subsystems: the default is the first two, not the first and the last)
+    for dd in ([2, 3, 2], [2, 2, 3], [2, 3, 2, 2]):
+        add("swap.index", dict(sys=[1, 2], row_only=False, dimform="list", rdims=dd, sys_omitted=True), "swap/sys-omitted/n=%d" % len(dd))
+    add("swap.index", dict(sys=[1, 2], row_only=False, dimform="2row", rdims=[2, 3, 2], cdims=[3, 2, 2], sys_omitted=True), "swap/sys-omitted/n=3")
+    # scalar `dim` = d on (d x d) (x) (r x c) with r != c
+    for d_, r_, c_ in ((2, 2, 3), (2, 3, 2), (3, 1, 2)):
+        add("swap.index", dict(sys=[1, 2], row_only=False, dimform="scalar", rdims=[d_, r_], cdims=[d_, c_]), "swap/scalar-rectangular")
     # swap with `sys` and `dim` omitted: two equal subsystems; with row_only the number of columns is arbitrary (left multiplication by the swap operator)
     for d in (2, 3, 4):
         add("swap.index", dict(rdims=[d, d], sys=[1, 2], row_only=False, all_omitted=True), "swap/all-omitted")
